@@ -23,9 +23,18 @@ def form_consts():
     one(r"let simple = HeaderRecognizer::new\(has_body, true, num_slots, make_fields\(\), vtable\);\s*"
         r"let flattened = HeaderRecognizer::new\(has_body, false, num_slots, make_fields\(\), vtable\);\s*"
         r"FirstOf::new\(simple, flattened\)", rec, "header_recognizer order")
+    # VecRecognizer::reset: does the attribute-body instance return to `Between` (its initial stage) or to `Init`?
+    vreset = one(r"impl<T, R: Recognizer<Target = T>> Recognizer for VecRecognizer<T, R> \{.*?\n    fn reset\(&mut self\) \{(.*?)\n    \}\n\}",
+                 impls, "VecRecognizer::reset", re.S)
+    always_init = len(re.findall(r"self\.stage = BodyStage::Init;", vreset))
+    keeps = len(re.findall(r"self\.stage = if self\.is_attr_body \{\s*BodyStage::Between\s*\} else \{\s*BodyStage::Init\s*\};", vreset))
+    if always_init + keeps != 1:
+        raise ExtractError("VecRecognizer::reset not recognised")
     return (HEADER + "namespace SwimVerif.Generated\n"
             "/-- `EmptyBodyRecognizer` accepts one `Extant` item before `EndRecord` (repair of C16-F1). -/\n"
             f"def emptyBodyAcceptsExtant : Bool := {'true' if accepts else 'false'}\n"
+            "/-- `VecRecognizer::reset` restores the initial stage of an attribute-body instance (false: C16-F16). -/\n"
+            f"def vecResetKeepsAttrMode : Bool := {'true' if keeps else 'false'}\n"
             "end SwimVerif.Generated\n")
 
 EXTRACTORS = {"FormConsts": form_consts}
